@@ -411,9 +411,10 @@ func (s *Speller) node(n Node, nextWS bool) {
 	case *NComment:
 		s.B.WriteString("{#" + n.S + "#}")
 	case *NVerbatim:
-		s.open("{%", true)
+		s.open("{%", endsWS(&s.B))
 		s.atok("verbatim", "tag:verbatim", "")
-		s.close("%}", true)
+		bodyWS := n.S == "" || n.S[0] == ' ' || n.S[0] == '\n' || n.S[0] == '\t' || n.S[0] == '\r'
+		s.close("%}", bodyWS)
 		s.anchor("verbatim-body", "")
 		s.B.WriteString(n.S)
 		s.endTag("endverbatim")
